@@ -332,6 +332,12 @@ func c18Transforms() []c18Transform {
 				}
 			}
 			pos = append(pos, len(t.lex))
+			// also the very end of every block and function body (just before its closing brace)
+			walkNodes(prog, func(n *ref.Node) {
+				if (n.Kind == "block" || n.Kind == "fun") && n.End-1 > 0 && n.End-1 < len(t.lex) && t.lex[n.End-1] == "}" {
+					pos = append(pos, n.End-1)
+				}
+			})
 			for k := 1 + r.Intn(3); k > 0; k-- {
 				at := pos[r.Intn(len(pos))]
 				g := NewPG(r, 2+r.Intn(5))
